@@ -36,17 +36,6 @@ def outR {α} (r : Except C17.Err α) (k : α → String) : String :=
   | .ok a => "ok " ++ k a
   | .error _ => "err"
 
-/-- glue between the layers, evaluated on every round-trip request (validated, not proved):
-    the characters written lex back to the tokens of the token-level export -/
-def glueOK (bytes : List Char) (f : TFile) : Bool :=
-  let l1 : List (List (Option Rat)) := (lexLines bytes).map (fun l => l.map Tok.value)
-  let l2 : List (List (Option Rat)) := f.lines.map (fun l => l.map Tok.value)
-  l1 == l2
-
-def headerLinesT (h : List Char) : List (List Tok) :=
-  if h.isEmpty then [] else (splitLines h []).map (fun l => (splitWs l []).map Tok.raw)
-
-
 /-- UTF-8 bytes of a character list, hex-encoded (`-` = empty); equals `encHex` on ASCII -/
 def encHexU (cs : List Char) : String :=
   if cs.isEmpty then "-" else
@@ -91,7 +80,7 @@ def handle : Handler := fun op args =>
   | "c20.rtlist" => withArgs (do let h ← pBytes; let u ← pRat; let xs ← pRats; pure (h, u, xs)) args fun (h, u, xs) =>
       if u = 0 then "undef" else
       let bytes := exportList xs u h
-      let nh := if h.isEmpty then 0 else (splitLines h []).length
+      let nh := headerLineCount h
       outE (importList bytes u nh) fun l => encHex bytes ++ " " ++ toString (countLines bytes) ++ " " ++ showList l
   | "c20.rttable" => withArgs (do let h ← pBytes; let us ← pRats; let t ← pTable; pure (h, us, t)) args fun (h, us, t) =>
       if us.any (· = 0) then "undef" else
@@ -99,7 +88,7 @@ def handle : Handler := fun op args =>
       | .error .diag => "err"
       | .error .undef => "undef"
       | .ok bytes =>
-        let nh := if h.isEmpty then 0 else (splitLines h []).length
+        let nh := headerLineCount h
         let glue := match exportT t us (headerLinesT h) with
           | .ok f => if glueOK bytes f then "glue1" else "glue0"
           | .error _ => "glue0"
@@ -137,7 +126,7 @@ def handle : Handler := fun op args =>
       let xs : List Rat := if n < 2 ∨ a = b then [a] else
         let step := (b - a) / ((n : Rat) - 1)
         (List.range n).map (fun (i : Nat) => a + (i : Rat) * step)
-      let nh := if h.isEmpty then 0 else (splitLines h []).length
+      let nh := headerLineCount h
       match exportFunction f xs us h with
       | .error .diag => "err"
       | .error .undef => "undef"
